@@ -14,6 +14,7 @@ import (
 	"fmt"
 	"os"
 	"os/exec"
+	"path/filepath"
 	"sort"
 	"sync"
 	"time"
@@ -50,7 +51,10 @@ type dsSpec struct {
 	Cached    bool   `json:"cached"`    // already in yoda's file cache
 	NodeHas   bool   `json:"nodeHas"`   // the node serves the file
 	HashFails bool   `json:"hashFails"` // the node fails the data-source metadata query
-	Fill      byte   `json:"fill"`
+	// the cache directory holds a file of the right NAME whose content is cut short (a crash while writing, a damaged disk):
+	// the integrity check of the cache refuses it and the executable is fetched from the node like an uncached one
+	CacheDamaged bool `json:"cacheDamaged"`
+	Fill         byte `json:"fill"`
 }
 
 type reqSpec struct {
@@ -87,6 +91,9 @@ func genCase(r *fx.Rng, idx int) caseSpec {
 	nds := r.Range(1, 4)
 	for i := 1; i <= nds; i++ {
 		d := dsSpec{ID: uint64(i), FileLen: r.PickInt(1, 5, 31, 32, 33, 64, 200, 1000), Cached: r.Chance(1, 2), NodeHas: !r.Chance(1, 6), HashFails: r.Chance(1, 25), Fill: byte(r.Intn(200))}
+		if !d.Cached && d.FileLen >= 2 && r.Chance(1, 4) {
+			d.CacheDamaged = true
+		}
 		c.DS = append(c.DS, d)
 	}
 	nreq := r.PickInt(1, 1, 2, 3, 6)
@@ -226,6 +233,8 @@ func child(specPath string, from int) {
 			}
 			if d.Cached {
 				cache.AddFile(file)
+			} else if d.CacheDamaged && len(file) >= 2 {
+				fx.Must(os.WriteFile(filepath.Join(dir, name), file[:len(file)/2], 0o600))
 			}
 		}
 		var wg sync.WaitGroup
